@@ -6,6 +6,7 @@ import (
 	"sort"
 	"strconv"
 	"testing"
+	"time"
 
 	"gopkg.in/typ.v4/maps"
 	"gopkg.in/typ.v4/slices"
@@ -41,6 +42,7 @@ type HCase struct {
 	// collecting steps fall back to their non-collecting variant (plain / temporary input)
 	Collect int `json:"collect,omitempty"`
 	Reps    int `json:"reps,omitempty"` // C14.repeat: every step is executed Reps times in a row and nothing is kept
+	SleepMs int `json:"sleep_ms,omitempty"` // C14.time: how long a step of mode sleep-before-call sleeps (0: not at all)
 }
 
 const (
@@ -51,10 +53,11 @@ const (
 	modeTemporary = 4 // the input is a copy built inside the call expression (only the callee references it)
 	modeTempGC    = 5 // modeTemporary, and the callback runs runtime.GC() and allocates same-sized junk at its Q-th invocation
 	modeGCInside  = 6 // the callback runs runtime.GC() at its Q-th invocation
-	numModes      = 7
+	modeSleep     = 7 // time.Sleep(SleepMs) before the call: wall-clock time passes between two calls (only the enumerated cases of C14.time use it)
+	numModes      = 8
 )
 
-var modeNames = []string{"plain", "callback-panics", "callback-goexits", "gc-before-call", "temporary-input", "temporary-input+gc-in-callback", "gc-in-callback"}
+var modeNames = []string{"plain", "callback-panics", "callback-goexits", "gc-before-call", "temporary-input", "temporary-input+gc-in-callback", "gc-in-callback", "sleep-before-call"}
 
 type abortSentinel struct{}
 
@@ -233,6 +236,9 @@ func histGroups[K comparable](h *hist, name string, arg myInts, v []int, keyer f
 		return msg
 	}
 	if h.keep {
+		if msg := growGroups(name, "the input is in the history below", got, scribble, sameInt); msg != "" {
+			return msg
+		}
 		h.kept = append(h.kept, keptResult{
 			check: func() string {
 				if msg := checkGroups("the result of the earlier call "+name+", looked at again after later calls,", "the input is in the history below", len(v), got, want); msg != "" {
@@ -848,7 +854,7 @@ func (h *hist) step(i int, st HStep) string {
 	op := ((st.Op % len(histOps)) + len(histOps)) % len(histOps)
 	on := ((st.On % h.k) + h.k) % h.k
 	mode := ((st.Mode % numModes) + numModes) % numModes
-	if mode >= modeGCBefore && mode != modeTemporary {
+	if mode >= modeGCBefore && mode != modeTemporary && mode != modeSleep {
 		if h.gcs >= h.c.Collect {
 			if mode == modeTempGC {
 				mode = modeTemporary
@@ -915,6 +921,12 @@ func (h *hist) step(i int, st HStep) string {
 		}
 	case modeGCBefore:
 		runtime.GC()
+		msg = h.do(op, on, st.P, nil, false)
+	case modeSleep:
+		if h.c.SleepMs > 0 {
+			time.Sleep(time.Duration(h.c.SleepMs) * time.Millisecond)
+			h.out.Labels = appendOnce(h.out.Labels, "slept-ms:"+strconv.Itoa(h.c.SleepMs))
+		}
 		msg = h.do(op, on, st.P, nil, false)
 	default:
 		msg = h.do(op, on, st.P, tk, temporary)
@@ -1013,7 +1025,7 @@ const histRule = "case = 1..3 inputs (int slices over 0..5, each also as a map p
 	"Except/ExceptSet/Trim/TrimLeft/TrimRight with the NEXT input as their list, Index+Contains, TryGet+SafeGet+SafeGetOr+Last, maps.Clone, Keys, Values, KeyOf+ContainsValue+HasKey, Clone+modify+Clear+reuse; " +
 	"and on the same ints as []any: Distinct, Index+Contains, Except, Trim, GroupBy and CountBy keyed by the element - these can be aborted by a run-time panic inside the library (two values holding slices are put " +
 	"into the slice: == / hashing panics; recovered, not asserted) and are then followed by plain calls like every aborted call. " +
-	"Every result is compared with a naive loop at once, KEPT, and compared again after every later call (and all inputs, up to full capacity, with their snapshot); at the end every kept result is " +
+	"Every result is compared with a naive loop at once (the groups of a GroupBy result are then grown by appends, one after the other, and re-read), KEPT, and compared again after every later call (and all inputs, up to full capacity, with their snapshot); at the end every kept result is " +
 	"overwritten in turn and the inputs and all later results compared once more. Modes: plain; the callback panics at its q-th invocation and the caller recovers; the call runs in a goroutine of its own " +
 	"whose callback calls runtime.Goexit at its q-th invocation - an aborted call is followed at once by the same helper on the next input and on the same one (for Goexit first from a deferred function of the dying goroutine); " +
 	"runtime.GC() before the call; the input is a temporary copy built inside the call expression (only the callee references it), optionally with runtime.GC() plus four same-sized junk allocations " +
@@ -1131,3 +1143,51 @@ var specRepeat = pbt.Register(&pbt.Spec[HCase]{
 })
 
 func TestC14Repeat(t *testing.T) { pbt.Check(t, specRepeat) }
+
+// ---- C14.time: wall-clock time passes in the middle of a history
+
+// timeCase: every helper on two (three) inputs alternately, then a call that is preceded by a sleep, then every helper again
+// (starting with the one after the sleep), optionally a second sleep and a third round. All results are kept and re-read after
+// every call, as in C14.history.
+func timeCase(k, sleepMs, sleeps int) HCase {
+	inputs := [][][]int{{{1, 2, 1, 4, 2, 5}, {3, 1, 3}}, {{0, 0}, {2, 4, 2, 0, 5, 5, 1}, {4}}}
+	c := HCase{Inputs: inputs[k%2], Layout: (k / 2) % 2, SleepMs: sleepMs}
+	round := func(from, r int) {
+		for j := 0; j < len(histOps); j++ {
+			op := (from + j) % len(histOps)
+			c.Steps = append(c.Steps, HStep{Op: op, On: j + r, P: 3 + (j+r)%5})
+		}
+	}
+	round(0, 0)
+	for r := 1; r <= sleeps; r++ {
+		at := (k*7 + r*11) % len(histOps)
+		c.Steps = append(c.Steps, HStep{Op: at, On: r, P: 4, Mode: modeSleep})
+		if r%2 == 1 { // an aborted call right after the pause, too
+			c.Steps = append(c.Steps, HStep{Op: at, On: r + 1, P: 4, Mode: modePanic, Q: 2})
+		}
+		round(at, r)
+	}
+	return c
+}
+
+var specTime = pbt.Register(&pbt.Spec[HCase]{
+	Property: "C14", Name: "C14.time",
+	Rule: "enumerated histories of C14.history (same helpers, same oracles: every result compared with the naive loop, kept, and re-read after every later call; inputs compared up to their full capacity after every call; " +
+		"all kept results overwritten in turn at the end) in which wall-clock time really passes: every helper once on alternating inputs, then time.Sleep(2.1 s) (thorough: also 5.1 s, and histories with two pauses), " +
+		"then the helper at which the pause struck (a different one per case), the same helper aborted by a panic of its callback, and every helper again. Quick: two histories (two inputs in arrays of their own; " +
+		"three inputs as adjacent sub-slices of one shared buffer), run in parallel shards",
+	Enum: func(shard, shards int, tier string, yield func(HCase) bool) {
+		cases := []HCase{timeCase(0, 2100, 1), timeCase(3, 2100, 1)}
+		if tier == "thorough" {
+			cases = append(cases, timeCase(1, 2100, 2), timeCase(2, 5100, 1), timeCase(5, 5100, 2), timeCase(4, 2100, 1), timeCase(6, 3000, 2), timeCase(7, 5100, 1))
+		}
+		for i, c := range cases {
+			if i%shards == shard && !yield(c) {
+				return
+			}
+		}
+	},
+	Run: RunHistory, Exhaustive: true, Replicas: 4, ReplicaEvery: 1,
+})
+
+func TestC14Time(t *testing.T) { pbt.Check(t, specTime) }
